@@ -1,4 +1,5 @@
 import UtilModel.Core.Driver
+import UtilModel.Core.DriverH
 import UtilModel.Broadcast.Model
 import UtilModel.Broadcast.Monitors
 /-! Development driver for this component only:
@@ -7,5 +8,5 @@ open UtilModel
 
 def main (args : List String) : IO UInt32 :=
   driverMain [
-    mkEntry "broadcast" Broadcast.model Broadcast.Obs.parse [MonEntry.ofMonitor "C03" Broadcast.monC03]
+    mkEntryH "broadcast" Broadcast.model Broadcast.Obs.parse [MonEntry.ofMonitor "C03" Broadcast.monC03]
   ] args
